@@ -1,0 +1,26 @@
+//go:build verif
+
+package internal
+
+import "sync/atomic"
+
+var verifHook atomic.Pointer[func(string)]
+
+// VerifPoint calls the installed hook (if any) with the name of the
+// yield point. Only compiled with the "verif" build tag.
+func VerifPoint(name string) {
+	if fn := verifHook.Load(); fn != nil {
+		(*fn)(name)
+	}
+}
+
+// VerifSetHook installs fn as the handler for all yield points and
+// returns a function that restores the previous handler.
+func VerifSetHook(fn func(string)) (restore func()) {
+	var next *func(string)
+	if fn != nil {
+		next = &fn
+	}
+	prev := verifHook.Swap(next)
+	return func() { verifHook.Store(prev) }
+}
